@@ -363,6 +363,13 @@ def main(argv):
             "theorems": thms,
             "axioms": {t: ax_of(t) for t in thms},
             "programs": n_programs, "disagreements_checked": len(disagreements),
+            "evaluations": n_programs,
+            "distinct_nontrivial": int(coverage_extra.get("asserted_inputs", 0)) if "corr" in P["stages"] else n_programs,
+            "rule": ("inputs are moq command lines over generated/corpus source packages (corr + fast stages), compiled mocks "
+                     "with operation scripts (rt) and CLI scenarios with prior file-system states (cli), all from one "
+                     "random.Random(seed); distinct = distinct (package, flags, arguments) jobs; non-trivial = inside the "
+                     "asserted domain (WF.core and the model's own output passes the reflected checkers, or a corpus entry), "
+                     "i.e. the inputs on which the property is actually asserted of the real moq"),
             "samples": samples or [{"note": "no sample available"}],
             "broken_obligations": broken_obl,
         }, **coverage_extra),
